@@ -893,7 +893,8 @@ return 1;""",
         if typemap.base == "vector":
             vtypemap = ast.template_arguments[0].typemap
             fmt.numpy_type = vtypemap.PYN_typenum
-            fmt.cxx_T = ast.template_arguments[0].typemap.name
+            fmt.cxx_T = vtypemap.cxx_type
+            fmt.flat_T = vtypemap.flat_name
             fmt.npy_rank = "1"
             if is_result:
                 fmt.npy_dims_var = "SHD_" + fmt.C_result
@@ -4659,7 +4660,7 @@ py_statements = [
         # Convert input list argument into a C++ std::vector.
         # Pass to C++ function.
         # cxx_var is released by the compiler.
-        c_helper="create_from_PyObject_vector_{cxx_T}",
+        c_helper="create_from_PyObject_vector_{flat_T}",
         parse_format="O",
         parse_args=["&{pytmp_var}"],
         arg_declare=[],
@@ -4682,7 +4683,7 @@ py_statements = [
         # Create a pointer a std::vector and pass to C++ function.
         # Create a Python list with the std::vector.
         # cxx_var is released by the compiler.
-        c_helper="to_PyList_vector_{cxx_T}",
+        c_helper="to_PyList_vector_{flat_T}",
         arg_declare=[],
         declare=[
             "PyObject * {py_var} = {nullptr};",
@@ -4704,7 +4705,7 @@ py_statements = [
     # XXX - must release after copying result.
     dict(
         name="py_vector_result_list",
-        c_helper="to_PyList_vector_{cxx_T}",
+        c_helper="to_PyList_vector_{flat_T}",
         declare=[
             "PyObject * {py_var} = {nullptr};",
         ],
